@@ -25,29 +25,32 @@ where
     W: io::Write,
 {
     fn write_xml(&self, writer: &mut W) -> WriterResult<()> {
+        // The facet values are text from the schema; the generated Restrictions hold numbers. A value is written as
+        // the number it parses to (never as raw text, which would be compiled as Rust tokens); a facet that is not
+        // such a number (a decimal bound, garbage) can not be represented and is left out.
         // Here we want to write the constructor for the helpers_content::restrictions::Restrictions
         // and write that to the fn write_xml(&self, writer: &mut W) -> WriterResult<()> {
 
         writeln!(writer, "Rc::new(restrictions::Restrictions {{")?;
-        if let Some(min_inclusive) = &self.min_inclusive {
+        if let Some(min_inclusive) = self.min_inclusive.as_ref().and_then(|v| v.trim().parse::<i32>().ok()) {
             writeln!(writer, "   min_inclusive: Some({min_inclusive}), ")?;
         }
-        if let Some(max_inclusive) = &self.max_inclusive {
+        if let Some(max_inclusive) = self.max_inclusive.as_ref().and_then(|v| v.trim().parse::<i32>().ok()) {
             writeln!(writer, "   max_inclusive: Some({max_inclusive}), ")?;
         }
-        if let Some(min_exclusive) = &self.min_exclusive {
+        if let Some(min_exclusive) = self.min_exclusive.as_ref().and_then(|v| v.trim().parse::<i32>().ok()) {
             writeln!(writer, "   min_exclusive: Some({min_exclusive}), ")?;
         }
-        if let Some(max_exclusive) = &self.max_exclusive {
+        if let Some(max_exclusive) = self.max_exclusive.as_ref().and_then(|v| v.trim().parse::<i32>().ok()) {
             writeln!(writer, "   max_exclusive: Some({max_exclusive}), ")?;
         }
-        if let Some(length) = &self.length {
+        if let Some(length) = self.length.as_ref().and_then(|v| v.trim().parse::<usize>().ok()) {
             writeln!(writer, "   length: Some({length}), ")?;
         }
-        if let Some(min_length) = &self.min_length {
+        if let Some(min_length) = self.min_length.as_ref().and_then(|v| v.trim().parse::<usize>().ok()) {
             writeln!(writer, "   min_length: Some({min_length}), ")?;
         }
-        if let Some(max_length) = &self.max_length {
+        if let Some(max_length) = self.max_length.as_ref().and_then(|v| v.trim().parse::<usize>().ok()) {
             writeln!(writer, "   max_length: Some({max_length}), ")?;
         }
 
